@@ -25,8 +25,9 @@ VARIABLES ph,       \* id -> "idle" | "got" | "run" | "ended" | "killed" | "done
           nact,     \* id -> terminal broker actions applied by the worker since the delivery
           cw,       \* consumer -> worker number (0: a client outside any worker)
           running, started,  \* actor bodies in progress / started during this run
-          wc        \* worker configuration and shutdown state
-wvars == <<ph, dv, out, nact, cw, running, started, wc>>
+          wc,       \* worker configuration and shutdown state
+          rs        \* id -> result bookkeeping [n: stores attempted, ok: last successful store matches, due: a store is owed]
+wvars == <<ph, dv, out, nact, cw, running, started, wc, rs>>
 wall == <<vars, tvars, wvars>>
 
 DV0 == [tried |-> 0, max |-> 0, rec |-> FALSE, res |-> FALSE, due |-> 0]
@@ -36,6 +37,7 @@ WInit == /\ TInit
          /\ ph = [i \in Ids |-> "idle"] /\ dv = [i \in Ids |-> DV0] /\ out = [i \in Ids |-> "none"]
          /\ nact = [i \in Ids |-> 0] /\ cw = [c \in Consumers |-> 0]
          /\ running = 0 /\ started = 0 /\ wc = WC0
+         /\ rs = [i \in Ids |-> [n |-> 0, good |-> TRUE, owed |-> FALSE]]
 
 Has(x) == x \in chk
 Terminal == {"ack", "nack", "reject", "requeue"}
@@ -43,12 +45,12 @@ Terminal == {"ack", "nack", "reject", "requeue"}
 (* ---- worker-only events --------------------------------------------------------------- *)
 WCfg == /\ Is("wcfg") /\ Step
         /\ wc' = [wc EXCEPT !.tl = Ev.tl, !.ml = Ev.ml, !.donedl = Ev.donedl]
-        /\ UNCHANGED <<vars, calls, chk, devs, ph, dv, out, nact, cw, running, started>>
+        /\ UNCHANGED <<vars, calls, chk, devs, ph, dv, out, nact, cw, running, started, rs>>
 
 WXs == /\ Is("xs") /\ Step
        /\ ph[Ev.i] = "got"
        /\ ph' = [ph EXCEPT ![Ev.i] = "run"]
-       /\ UNCHANGED <<vars, calls, chk, devs, dv, out, nact, cw, running, started, wc>>
+       /\ UNCHANGED <<vars, calls, chk, devs, dv, out, nact, cw, running, started, wc, rs>>
 
 WXe == /\ Is("xe") /\ Step
        /\ ph[Ev.i] = "run"
@@ -59,31 +61,41 @@ WXe == /\ Is("xe") /\ Step
           ELSE IF Ev.out = "killed"
           THEN ph' = [ph EXCEPT ![Ev.i] = "killed"]
           ELSE ph' = [ph EXCEPT ![Ev.i] = "ended"]
+       /\ rs' = [rs EXCEPT ![Ev.i].owed = (dv[Ev.i].res /\ Ev.out \in {"ok", "fail"}) \/ (Ev.out = "eager" /\ @)]
        /\ UNCHANGED <<vars, calls, chk, devs, dv, nact, cw, running, started, wc>>
+
+(* C13: a result-bucket write for message i.  Only when results are enabled for i; it must carry  *)
+(* the outcome of the execution that just finished (Ev.match, compared field by field by the      *)
+(* recorder: success flag, encoded value / exception text and type, start <= finish, ttl).        *)
+WStore == /\ Is("store") /\ Step
+          /\ Has("result") => (dv[Ev.i].res /\ ph[Ev.i] \in {"run", "ended", "done"})
+          /\ rs' = [rs EXCEPT ![Ev.i] = [n |-> @.n + 1, good |-> IF Ev.failed THEN @.good ELSE Ev.match,
+                                         owed |-> IF Ev.failed THEN @.owed ELSE FALSE]]
+          /\ UNCHANGED <<vars, calls, chk, devs, ph, dv, out, nact, cw, running, started, wc>>
 
 WBs == /\ Is("bs") /\ Step
        /\ running' = running + 1 /\ started' = started + 1
        /\ Has("limit") => running' <= wc.tl                       \* C09
        /\ (Has("mlimit") /\ wc.ml > 0) => started' <= wc.ml       \* C10
        /\ Has("route") => Ev.okfn                                 \* C11
-       /\ UNCHANGED <<vars, calls, chk, devs, ph, dv, out, nact, cw, wc>>
+       /\ UNCHANGED <<vars, calls, chk, devs, ph, dv, out, nact, cw, wc, rs>>
 
 WBe == /\ Is("be") /\ Step
        /\ running' = running - 1
-       /\ UNCHANGED <<vars, calls, chk, devs, ph, dv, out, nact, cw, started, wc>>
+       /\ UNCHANGED <<vars, calls, chk, devs, ph, dv, out, nact, cw, started, wc, rs>>
 
 WStop == /\ Is("stop") /\ Step
          /\ wc' = [wc EXCEPT !.stop = TRUE, !.stopdl = Ev.dl]
-         /\ UNCHANGED <<vars, calls, chk, devs, ph, dv, out, nact, cw, running, started>>
+         /\ UNCHANGED <<vars, calls, chk, devs, ph, dv, out, nact, cw, running, started, rs>>
 
 WForced == /\ Is("forced") /\ Step
            /\ wc' = [wc EXCEPT !.forced = TRUE]
-           /\ UNCHANGED <<vars, calls, chk, devs, ph, dv, out, nact, cw, running, started>>
+           /\ UNCHANGED <<vars, calls, chk, devs, ph, dv, out, nact, cw, running, started, rs>>
 
 WRend == /\ Is("rend") /\ Step
          /\ (Has("stop") /\ wc.stop) => now <= wc.stopdl          \* C03: returns within grace + slack
          /\ wc' = [wc EXCEPT !.ret = TRUE]
-         /\ UNCHANGED <<vars, calls, chk, devs, ph, dv, out, nact, cw, running, started>>
+         /\ UNCHANGED <<vars, calls, chk, devs, ph, dv, out, nact, cw, running, started, rs>>
 
 (* the loop is idle after run() returned *)
 WQuiet == /\ Is("quiet") /\ Step
@@ -93,9 +105,14 @@ WQuiet == /\ Is("quiet") /\ Step
                   /\ ph[i] \in {"got", "run", "ended", "killed"} =>         \* taken but never disposed:
                         (st[i] = "live" /\ loc[i].n + loc[i].d = 1)          \*   back in its queue
           /\ Has("dispo") =>
-               \A i \in Ids : (ph[i] = "ended" /\ ~wc.stop) => FALSE         \* an outcome was never reported
+               \A i \in Ids : (ph[i] = "ended" /\ ~wc.forced) => FALSE       \* an outcome was never reported
           /\ (Has("mlimit") /\ wc.ml > 0) =>
                \A i \in Ids : st[i] = "live" => (loc[i].p = 0 /\ ~transit[i])   \* beyond M: back in the queue
+          /\ Has("result") =>
+               \A i \in Ids :
+                  /\ rs[i].good                                               \* what is stored is the latest outcome
+                  /\ ((~dv[i].res) => (rs[i].n = 0))                          \* disabled: nothing written
+                  /\ ((rs[i].owed /\ ~Ev.storefault /\ ~wc.forced) => FALSE)  \* enabled: written
           /\ UNCHANGED <<vars, calls, chk, devs, wvars>>
 
 (* every job of the scenario must have run by the scenario's deadline (bounded liveness, C09/C10) *)
@@ -149,26 +166,26 @@ RecurOk(i, op, m) ==
 
 WShadow ==
     CASE Is("cons") -> /\ cw' = [cw EXCEPT ![Ev.c] = Ev.w]
-                       /\ UNCHANGED <<ph, dv, out, nact, running, started, wc>>
+                       /\ UNCHANGED <<ph, dv, out, nact, running, started, wc, rs>>
       [] Is("begin") /\ Ev.op \in Terminal /\ ByWorker(Ev.c) ->
                        /\ Has("dispo") => DispoOk(Ev.i, Ev.op, Ev.m)
                        /\ Has("retry") => RetryOk(Ev.i, Ev.op, Ev.m)
                        /\ Has("recur") => RecurOk(Ev.i, Ev.op, Ev.m)
                        /\ nact' = [nact EXCEPT ![Ev.i] = @ + 1]
-                       /\ UNCHANGED <<ph, dv, out, cw, running, started, wc>>
+                       /\ UNCHANGED <<ph, dv, out, cw, running, started, wc, rs>>
       [] Is("end") /\ Call(Ev.k).op \in Terminal /\ ByWorker(Call(Ev.k).c) ->
                        /\ ph' = [ph EXCEPT ![Call(Ev.k).i] = IF @ \in {"ended", "got", "killed"} THEN "done" ELSE @]
-                       /\ UNCHANGED <<dv, out, nact, cw, running, started, wc>>
+                       /\ UNCHANGED <<dv, out, nact, cw, running, started, wc, rs>>
       [] Is("end") /\ Call(Ev.k).op = "consume" /\ Ev.st = "ok" /\ ByWorker(Call(Ev.k).c) ->
                        /\ ph' = [ph EXCEPT ![Ev.i] = "got"]
                        /\ dv' = [dv EXCEPT ![Ev.i] = [tried |-> Ev.p.tried, max |-> Ev.p.max, rec |-> Ev.p.rec,
                                                       res |-> Ev.p.res, due |-> Ev.p.due]]
                        /\ nact' = [nact EXCEPT ![Ev.i] = 0]
                        /\ out' = [out EXCEPT ![Ev.i] = "none"]
-                       /\ UNCHANGED <<cw, running, started, wc>>
+                       /\ UNCHANGED <<cw, running, started, wc, rs>>
       [] OTHER -> UNCHANGED wvars
 
 WNext == \/ (TNext /\ WShadow)
-         \/ WCfg \/ WXs \/ WXe \/ WBs \/ WBe \/ WStop \/ WForced \/ WRend \/ WQuiet \/ WLate
+         \/ WStore \/ WCfg \/ WXs \/ WXe \/ WBs \/ WBe \/ WStop \/ WForced \/ WRend \/ WQuiet \/ WLate
 WSpec == WInit /\ [][WNext]_wall
 =============================================================================
